@@ -403,7 +403,14 @@ def gen_history(rng):
             cur = [dict(a, h=[v * f for v in a['h']]) for a in cur]
             ops.append({'op': 'set', 'arrays': cur})
         else:
-            ops.append({'op': rng.choice(['cts', 'cts', 'sol'])})
+            if rng.random() < 0.25:
+                # a parallel run: the other ranks' offers to the min-reduction
+                # (1e20 = "no constraint on that rank")
+                others = [rng.choice([1e20, 1e20, 10 ** rng.uniform(-6, -1)])
+                          for _ in range(rng.choice([1, 1, 2, 3]))]
+                ops.append({'op': 'par', 'others': others})
+            else:
+                ops.append({'op': rng.choice(['cts', 'cts', 'sol'])})
     ops.append({'op': 'cts'})
     base['arrays0'] = arrays0
     base['ops'] = ops
@@ -428,6 +435,16 @@ def reload(pa, a):
             kw[k] = np.array(v)
         pa.add_particles(**kw)
     pa.align_particles()
+
+
+class _PM:
+    """stands in for ParallelManager.update_time_steps (an MPI Allreduce(MIN)):
+    the other ranks' offers are given"""
+    def __init__(self, others):
+        self.others = others
+
+    def update_time_steps(self, local_dt):
+        return min([float(local_dt)] + list(self.others))
 
 
 def _conv(r):
@@ -496,14 +513,27 @@ def run_history(hc):
                     'h': [v for pa in pas for v in
                           map(float, pa.get('h', only_real_particles=False))]}
         else:
-            lines.append('h%s %s %s' % (op['op'], head, _arr_tokens(pas)))
+            extra = ''
+            if op['op'] == 'par':
+                extra = ' big=%s others=%s' % (H.fbits(1e20), H.flist(op['others']))
+            lines.append('h%s %s%s %s' % (op['op'], head, extra, _arr_tokens(pas)))
             try:
-                r = _conv(integ.compute_time_step(und, hc['cfl']) if op['op'] == 'cts'
-                          else s._compute_timestep())
+                if op['op'] == 'cts':
+                    r = _conv(integ.compute_time_step(und, hc['cfl']))
+                elif op['op'] == 'par':
+                    s.in_parallel = True
+                    s.pm = _PM(op['others'])
+                    try:
+                        r = _conv(s._compute_timestep())
+                    finally:
+                        s.in_parallel = False
+                        s.pm = None
+                else:
+                    r = _conv(s._compute_timestep())
             except Exception as e:      # noqa
                 r = ('raise', type(e).__name__ + ': ' + str(e)[:80])
             answers.append(canon(r))
-            snap = {'op': op['op'], 'res': r,
+            snap = {'op': op['op'], 'res': r, 'others': op.get('others'),
                     'h': [v for pa in pas for v in
                           map(float, pa.get('h', only_real_particles=False))],
                     'n': sum(pa.get_number_of_particles() for pa in pas),
@@ -568,6 +598,20 @@ def history_oracle(hc, snaps, R, case):
         R.count('history-oracle-step')
         if fixed is not None:
             R.count('history-oracle-step:fixed_h')
+        if sn['op'] == 'par':
+            # parallel run: the smallest step any rank's particles allow; the
+            # fixed step when no rank has a criterion
+            offers = [o for o in sn['others'] if o < 1e20] + ([exp] if exp is not None else [])
+            want = ('val', min(offers)) if offers else ('val', und)
+            R.count('history-oracle-step:parallel')
+            if not offers:
+                R.count('history-oracle-step:parallel-no-rank-constrained')
+            if not (isinstance(res, tuple) and res[0] == 'val' and rel_eq(res[1], want[1])):
+                R.prop_fail('C19:parallel:' + ('min-over-ranks' if offers else 'fixed-step-kept'),
+                            case, '%r (%s)' % (want, 'smallest offer of any rank' if offers
+                                               else 'no rank has a criterion: the fixed step'),
+                            repr(res))
+            continue
         if exp is None:
             want = 'none' if sn['op'] == 'cts' else ('val', und)
             if res != want:
@@ -652,6 +696,12 @@ def corpus_histories():
         # a bare, empty outlet buffer gains particles and criterion properties
         dict(base, arrays0=out0, ops=[{'op': 'cts'}, {'op': 'set', 'arrays': out1},
                                       {'op': 'cts'}, {'op': 'sol'}]),
+        # parallel: no rank constrained (fluid at rest everywhere) / another rank constrained
+        dict(base, arrays0=[one('fluid', [0.1, 0.1], {'dt_cfl': [0.0, 0.0]})],
+             ops=[{'op': 'par', 'others': [1e20]}, {'op': 'par', 'others': [0.003, 1e20]},
+                  {'op': 'par', 'others': [1e20, 1e20, 1e20]}]),
+        dict(base, arrays0=f0, ops=[{'op': 'par', 'others': [1e20]},
+                                    {'op': 'par', 'others': [1e-4]}]),
         # a criterion property is removed again
         dict(base, arrays0=out1, ops=[{'op': 'cts'}, {'op': 'set', 'arrays': out0},
                                       {'op': 'cts'}]),
